@@ -88,6 +88,49 @@ func c07(r *core.Report) {
 	ruleCheckThenInsert(r, "C07-SINGLE-CHANNEL")
 
 	// ---- C07-KEEPALIVE
+	// ---- C07-GIVE-UP-IS-LOCAL: the channel for a remote address is shared by every caller waiting on that
+	// address. A caller whose own context ended may only return: removing the channel from the table or closing
+	// it (its handshake and rekey timers) strands the callers still waiting on it.
+	r.Rule("C07-GIVE-UP-IS-LOCAL", "on the error edge of Channel.WaitReady no removal from the channel table and no Channel.Close is reachable", 1)
+	{
+		waitReady := needFn(r, "p/p2pke", "Channel.WaitReady")
+		chClose := needFn(r, "p/p2pke", "Channel.Close")
+		n := 0
+		for _, fn := range p.ModFuncs {
+			if fn.Pkg == nil || fn.Pkg.Pkg.Path() != core.ModPath+"/s/p2pkeswarm" {
+				continue
+			}
+			for _, ci := range core.CallsToFn(fn, waitReady) {
+				call, ok := ci.(*ssa.Call)
+				if !ok {
+					continue
+				}
+				n++
+				r.Analysed(fn)
+				reached := core.Reach(fn, call, cutErrNilOf(call), nil)
+				bad := ""
+				for in := range reached {
+					c2, isCall := in.(ssa.CallInstruction)
+					if !isCall {
+						continue
+					}
+					g := core.StaticCallee(c2.Common())
+					if g == nil {
+						continue
+					}
+					if g == chClose || (g.Pkg != nil && g.Pkg.Pkg.Path() == core.ModPath+"/s/p2pkeswarm" && (strings.HasPrefix(g.Name(), "delete") || g.Name() == "purge")) {
+						bad = core.FnName(g) + " at " + p.Pos(in.Pos())
+					}
+				}
+				r.Check(bad == "", "C07-GIVE-UP-IS-LOCAL", core.FnName(fn)+" WaitReady error edge", p.Pos(call.Pos()),
+					"a caller that gives up only returns", "after WaitReady failed for this caller (its context ended) control reaches "+bad+": the channel other callers are still waiting on is taken out of the table or stopped, their handshake is never retransmitted and their Tell never completes")
+			}
+		}
+		if n == 0 {
+			r.Fail("C07-GIVE-UP-IS-LOCAL: no WaitReady call found in p2pkeswarm")
+		}
+	}
+
 	r.Rule("C07-KEEPALIVE", "data from the current session refreshes lastReceived before it is handed out", 2)
 	{
 		calls := core.CallsToFn(lit, c.sessDeliver)
